@@ -372,6 +372,10 @@ def run_shard(spec, rec):
     for i in range(spec["a"], spec["b"]):
         rng = rng_for(spec["seed"], "C05", i, 0)
         cfg = filtgen.bank_cfg(rng)
+        if i % 12 == 5 and cfg["name"] != "fbank":
+            # a scaling function defined by the user against the documented interface (numbers in, numbers out): alias "vfsqrt"
+            cfg = dict(cfg, scaling_function="vfsqrt")
+            rec.count("banks_on_a_user_defined_scale")
         run_case({"idx": i, "seed": spec["seed"], "cfg": cfg}, rec, mon)
         if i % 25 == 0:
             run_case({"idx": i, "seed": spec["seed"], "cfg": {"sampling_rate": int(rng.choice(filtgen.RATES))}, "kind": "ranges"}, rec, mon)
